@@ -28,16 +28,16 @@ pub fn budget(prop: &str, tier: &str, samples: &Samples) -> Budget {
     let sc = |n: u64| -> u64 { ((n as f64) * scale).ceil() as u64 };
     match prop {
         "C06" => {
-            let n = sc(if thorough { 2_000_000 } else { 100_000 });
+            let n = sc(if thorough { 20_000_000 } else { 1_000_000 });
             Budget { runs: n, exhaustive: 0, images: 0, base_runs: n }
         }
         "C07" => {
-            let n = sc(if thorough { 5_000_000 } else { 200_000 });
+            let n = sc(if thorough { 60_000_000 } else { 2_000_000 });
             Budget { runs: n, exhaustive: 0, images: 0, base_runs: n }
         }
         #[cfg(feature = "stream")]
         "C08" => {
-            let n = sc(if thorough { 5_000_000 } else { 200_000 });
+            let n = sc(if thorough { 60_000_000 } else { 2_000_000 });
             let extra = if thorough {
                 crate::sweep::sweep_cases() + crate::sweep::HUGE_CASES
             } else {
@@ -46,13 +46,13 @@ pub fn budget(prop: &str, tier: &str, samples: &Samples) -> Budget {
             Budget { runs: n + extra, exhaustive: 0, images: 0, base_runs: n }
         }
         "C17" => {
-            let ex = sc(if thorough { 8_000 } else { 400 });
-            let multi = sc(if thorough { 3_000_000 } else { 100_000 });
+            let ex = sc(if thorough { 100_000 } else { 4_000 });
+            let multi = sc(if thorough { 30_000_000 } else { 1_000_000 });
             Budget { runs: ex + multi, exhaustive: ex, images: 0, base_runs: ex + multi }
         }
         #[cfg(feature = "stream")]
         "C18" => {
-            let imgs = sc(if thorough { 6_000 } else { 160 });
+            let imgs = sc(if thorough { 200_000 } else { 6_000 });
             let sweeps = crate::props::sample_sweep_units(samples, thorough).len() as u64;
             Budget { runs: imgs + sweeps, exhaustive: 0, images: imgs, base_runs: imgs + sweeps }
         }
